@@ -15,12 +15,12 @@
 (* (C) enumerators (M2): the same state space with printing invariants;    *)
 (*     the Go harness replays every printed case through the real code.    *)
 (*                                                                         *)
-(* A character is a TLC string of length 1; a text is a SEQUENCE of          *)
-(* characters (tuples are much cheaper in TLC than string slicing, and      *)
-(* TLC's on-disk state queue damages non-ASCII characters held in state     *)
-(* variables - measured - so inside the model a multi-byte rune is written  *)
-(* as an ASCII stand-in letter that the harness maps to the real rune).     *)
-(* Rune 0 of the Go code is "".                                            *)
+(* A character is a TLC string of length 1; a text is a SEQUENCE of        *)
+(* characters (tuples are much cheaper in TLC than string slicing, and    *)
+(* TLC's on-disk state queue damages non-ASCII characters held in state   *)
+(* variables - measured - so inside the model a multi-byte rune is        *)
+(* written as an ASCII stand-in letter that the harness maps to the real  *)
+(* rune).  Rune 0 of the Go code is "".                                   *)
 (***************************************************************************)
 EXTENDS Integers, Sequences, FiniteSets, TLC
 
